@@ -849,7 +849,11 @@ def describe_place(body, p, depth=0):
   fields = tuple(f for f in fields if f != '*')
   name = body.local_name(l)
   if name is not None:
-    return ('var', name) + (('.'.join(fields),) if fields else ())
+    # parameters and multiply-assigned variables are leaves; single-definition `let` bindings are looked
+    # through so that renaming a local does not change the description
+    d0 = single_def(body, l) if not (1 <= l <= body.argc) else None
+    if d0 is None or depth > 8:
+      return ('var', name) + (('.'.join(fields),) if fields else ())
   if depth > 8:
     return ('tmp', l)
   d = single_def(body, l)
